@@ -1,6 +1,6 @@
 """Triage: a requester-side subscriber that calls subscription.request(2) from on_subscribe (the canonical
 reactive-streams opening move) on request_stream(p).initial_request_n(1).  Expected (C08 / C06): REQUEST_STREAM(1) first,
-then REQUEST_N(2): three elements.  Observed before 965a694 (F28; the channel half is still open): REQUEST_N(2) is written before REQUEST_STREAM, the responder
+then REQUEST_N(2): three elements.  Observed before 965a694 / a34a39e (F28): REQUEST_N(2) is written before REQUEST_STREAM, the responder
 drops it for an unknown stream, one element arrives."""
 import asyncio, logging, sys
 from rsocket.payload import Payload
